@@ -120,9 +120,12 @@ def build(case, given=None, extra=True, defaults_distinct=False, wrap=False):
             topo[name] = d
     for i, x in enumerate(variables):
         amt = 2 ** i
+        if wrap == 'mixed0' and i == 0:
+            amt = 0      # a plain, falsy amount first, updates naming their updater after
         b.amount[(x['port'], tuple(x['v']))] = amt
         # wrap: the update names its updater itself (the form C08 describes)
-        val = {'_value': amt, '_updater': 'accumulate'} if wrap else amt
+        val = {'_value': amt, '_updater': 'accumulate'} \
+            if (wrap is True or (wrap == 'mixed0' and i > 0)) else amt
         if x['v']:
             nested_set(update, [x['port']] + list(x['v']), val)
         else:
